@@ -57,7 +57,8 @@ Definition chk_count (fail : bool) : checker := fun a b =>
 
 (** The harness's populate: inspects [old] (rewinds and reads it, ghost [Mark 2]
     with its content and previous offset), then fails or writes the value. *)
-Inductive pop_kind := PopValue (chunks : list (list N)) | PopNotFound | PopOther.
+(* PopPartialNF: writes the chunks it has, then reports NotFound (a streamed source that vanished) *)
+Inductive pop_kind := PopValue (chunks : list (list N)) | PopNotFound | PopOther | PopPartialNF (chunks : list (list N)).
 
 Definition client_populate (pk : pop_kind) : populate := fun dst old =>
   (match old with
@@ -70,6 +71,7 @@ Definition client_populate (pk : pop_kind) : populate := fun dst old =>
   | PopNotFound => Ret (Err (Custom CNotFound))
   | PopOther => Ret (Err (Custom COther))
   | PopValue chunks => write_chunks dst chunks
+  | PopPartialNF chunks => try (write_chunks dst chunks) (fun _ => Ret (Err (Custom CNotFound)))
   end).
 
 Definition client_judge (a : action) (readn : N) : judge := fun primary f =>
